@@ -86,6 +86,7 @@ M = {
             .push(tx.clone(), result.clone().unwrap_or_default());
         result?;
 """, ["C18"]),
+ "c17-capacity-without-snapshot": (SERVICE, "        let snapshot = self.swc.storage().db.snapshot();\n        let iter = snapshot.iterator(mode).skip(skip);\n\n        let capacity: u64 = iter", "        let snapshot = self.swc.storage().db.clone();\n        let iter = snapshot.iterator(mode).skip(skip);\n\n        let capacity: u64 = iter", ["C17"]),
  "c15-lambda-5": (SAMPLING, "const LAMBDA: u32 = 50;", "const LAMBDA: u32 = 5;", ["C15"]),
  "c15-no-boundary-clamp": (SAMPLING, "        if sample >= self.difficulty_boundary {\n            &self.difficulty_boundary - 1u32\n        } else {\n            sample\n        }", "        sample", ["C15"]),
  "c15-last-n-branch-lt": (LC, "        let content = if last_number - start_number <= last_n_blocks {\n            let last_n_headers = self.storage.get_last_n_headers();", "        let content = if last_number - start_number < last_n_blocks {\n            let last_n_headers = self.storage.get_last_n_headers();", ["C15"]),
